@@ -5,7 +5,7 @@ import ast
 
 from .. import kernelspec
 from ..model import AnalysisError, Program, body_walk, calls_in_body, dotted, norm
-from ..report import Result
+from ..report import Result, depends
 from ..dataflow import flow_of
 from ..normalform import canon, normal_form
 from ..poly import Poly, PolyEnv
@@ -15,12 +15,14 @@ TITLE = "Matched-filter S/N is the normalised template correlation and its argma
 LEVEL = "other"
 TECHNIQUE = "static analysis: length-carrying rule, kernel-vs-reference comparison, index agreement, dispatch exhaustiveness"
 EXPLANATION = (
-    "Narrow claim - structural clauses only: (R1) convolve_templates inverts the product spectrum to the padded length "
-    "(shared rule with C12; without it odd good sizes fail or give a response on the wrong period) and equals its reference "
-    "definition (circular pad to a good size, reference bin rolled to 0, time reversal, zero-mean/unit-norm template, "
-    "spectra multiplied, first nbins kept), with normalize_template and circular_pad_goodsize equal to theirs; (R2) the "
+    "Narrow claim - structural clauses only: (R1) convolve_templates inverts the product spectrum to an explicit length "
+    "(shared rule with C12), data, templates and inverse all have the length of the data - so the circular correlation has "
+    "the period of the data, not of a padded copy - and the function equals its reference "
+    "definition (reference bin rolled to 0, time reversal, zero-mean/unit-norm template over the data length, "
+    "spectra multiplied), with normalize_template and circular_pad_goodsize equal to theirs; (R2) the "
     "reported template, peak bin and S/N index the same bank and response matrix that produced the maximum, the kernels and "
-    "reference bins are taken from the bank in the same order, and the data convolved are the standardised z-scores; (R3) "
+    "reference bins are taken from the bank in the same order, and the data convolved are the standardised z-scores, estimate_zscore itself "
+    "being equal to its definition (C15.R1 re-evaluated); (R3) "
     "every template kind of MatchFilterMethods has a generator, and a template's reference bin is validated to lie inside "
     "it. Not decided: response values, invariance under offset/scale, recovery of a boxcar - numeric clauses."
 )
@@ -39,6 +41,34 @@ def run(prog: Program, res: Result, tier: str) -> None:
         if verdict == "incomparable":
             raise AnalysisError(f"kernel {name} cannot be compared with its reference definition: {why[0]}")
         (res.ok if verdict == "same" else res.bad)("R1", fn, fn.node, ("; ".join(why))[:500], construct=name, key=name)
+    # ---- R1 (cont.) the period of the circular correlation is the length of the data ------------------------------------
+    # A circular correlation evaluated on a longer, wrapped copy of the data (period L > n) is not the correlation over the
+    # n samples: the head is counted twice and the template is normalised over L (F31).
+    ct = prog.func(K, "convolve_templates")
+    fct = flow_of(ct)
+    dparam = ct.positional_params[0]
+    fwd = [c for c in calls_in_body(ct.node) if dotted(c.func) in ("np.fft.rfft", "nb_rfft", "rfft")]
+    inv = [c for c in calls_in_body(ct.node) if dotted(c.func) in ("np.fft.irfft", "nb_irfft", "irfft")]
+    lens = {canon(f"len({dparam})"), canon(f"{dparam}.size"), canon(f"{dparam}.shape[0]")}
+    why_p = ""
+    data_fwd = [c for c in fwd if c.args and canon(fct.expand(c.args[0], fct.cfg.node_for(c))) == canon(dparam)]
+    if len(data_fwd) != 1 or len(data_fwd[0].args) > 1 and canon(fct.expand(data_fwd[0].args[1], fct.cfg.node_for(data_fwd[0]))) not in lens:
+        why_p = "the data are not transformed at their own length (a padded or wrapped copy changes the period of the circular correlation)"
+    else:
+        for c in inv:
+            got = canon(fct.expand(c.args[1], fct.cfg.node_for(c))) if len(c.args) > 1 else "(none)"
+            if got not in lens:
+                why_p = f"the product spectrum is inverted to length `{got}`, not to the length of the data"
+        for c in fwd:
+            if c is data_fwd[0]:
+                continue
+            tx = canon(fct.expand(c.args[0], fct.cfg.node_for(c), stop={n_.id for l_ in ast.walk(ct.node) if isinstance(l_, ast.For)
+                                                                          for n_ in ast.walk(l_.target) if isinstance(n_, ast.Name)}))
+            if "circular_pad_goodsize" in tx or "good_size" in tx:
+                why_p = "the template is laid out on a padded length, not on the length of the data"
+    (res.ok if not why_p else res.bad)("R1", ct, data_fwd[0] if data_fwd else ct.node, "data, templates and the inverse transform all have the length of the data: "
+                                       "the circular correlation has the period of the data" if not why_p else why_p,
+                                       construct="period", key="convolve_templates:period")
     # ---- R2 index agreement -------------------------------------------------------------------
     cp = prog.func(F, "MatchedFilter._compute")
     nfc = normal_form(cp)
@@ -141,7 +171,10 @@ def run(prog: Program, res: Result, tier: str) -> None:
                 ok = ok and len(supports) == 1 and centre
         (res.ok if ok else res.bad)("R3", g, g.node if g else tmpl.node, f"gen_{k}: reference bin {'at the start' if k == 'boxcar' else 'at the peak (centre of a symmetric support)'}"
                                     if ok else f"gen_{k}: reference bin definition changed", construct=f"gen_{k}", key=f"gen:{k}")
-    res.floor("R1", 4)
+    # ---- R1 (cont.) the standardisation the filter is fed with (shared with C15.R1) ------------------------------------
+    depends(res, "R1", prog, tier, "C15", accept=lambda o: (o.key or "").startswith("zscore:"),
+            why="MatchedFilter correlates estimate_zscore(data, loc_method, scale_method): C15's rules for that function are re-evaluated here")
+    res.floor("R1", 8)
     res.floor("R2", 10)
     res.floor("R3", 5)
 
@@ -150,7 +183,12 @@ KF = "sigpyproc/core/kernels.py"
 FF = "sigpyproc/core/filters.py"
 MUTANTS = [
     {"id": "c13-revert-F18b", "file": KF, "expect": "C13.R1",
-     "old": "        conv = np.fft.irfft(data_fft * np.fft.rfft(temp_norm), len(data_pad))", "new": "        conv = np.fft.irfft(data_fft * np.fft.rfft(temp_norm))"},
+     "old": "        convs[itemp, :] = np.fft.irfft(data_fft * np.fft.rfft(temp_norm), nbins)", "new": "        convs[itemp, :] = np.fft.irfft(data_fft * np.fft.rfft(temp_norm))[:nbins]"},
+    {"id": "c13-revert-F31", "file": KF, "expect": "C13.R1",
+     "old": "    data_fft = np.fft.rfft(data)\n    for itemp in range(ntemps):\n        temp_kernel = temp_bank[itemp]\n        temp_pad = np.zeros_like(data)\n",
+     "new": "    data_pad = circular_pad_goodsize(data)\n    data_fft = np.fft.rfft(data_pad)\n    for itemp in range(ntemps):\n        temp_kernel = temp_bank[itemp]\n        temp_pad = np.zeros_like(data_pad)\n"},
+    {"id": "c13-data-transformed-at-good-size", "file": KF, "expect": "C13.R1",
+     "old": "    data_fft = np.fft.rfft(data)\n", "new": "    data_fft = np.fft.rfft(data, nb_fft_good_size(nbins, real=True))\n"},
     {"id": "c13-no-time-reverse", "file": KF, "expect": "C13.R1",
      "old": "        temp_pad = np.roll(temp_pad[::-1], 1)\n", "new": ""},
     {"id": "c13-roll-plus-ref", "file": KF, "expect": "C13.R1",
